@@ -18,14 +18,14 @@ Local Open Scope N_scope.
 (* For each of the four endpoints and EVERY value a request of that shape can hold (all field
    lengths including empty, all u32 values, arbitrary blob bytes and signature strings). *)
 Theorem C16_tower_parses_client (e : endpoint_spec) (req : mval) :
-  In e WS.ENDPOINTS -> typedb (ep_req e) req = true ->
+  In e WireSpec.ENDPOINTS -> typedb (ep_req e) req = true ->
   of_json_tower e (to_json_client e req) = Some req.
 Proof. exact (tower_parses_client e req). Qed.
 
 (* ... and, when the body is within the endpoint's cap and the handler's field checks pass, the
    router hands exactly that value to the internal API. *)
 Theorem C16_tower_forwards_client (e : endpoint_spec) (req : mval) (len : Z) :
-  In e WS.ENDPOINTS -> typedb (ep_req e) req = true -> handler_check e req = None -> (len <= ep_cap e)%Z ->
+  In e WireSpec.ENDPOINTS -> typedb (ep_req e) req = true -> handler_check e req = None -> (len <= ep_cap e)%Z ->
   tower_http e len (Some (to_json_client e req)) = TForward req.
 Proof. exact (tower_forwards_client e req len). Qed.
 
@@ -33,9 +33,9 @@ Proof. exact (tower_forwards_client e req len). Qed.
    compressed key, a locator 16 bytes, a signature is never empty. *)
 Theorem C16_tower_parses_register user_id :
   wf_bytesb user_id = true -> length user_id = 33%nat ->
-  of_json_tower WS.EP_register (to_json_client WS.EP_register (mk_register_request user_id))
+  of_json_tower WireSpec.EP_register (to_json_client WireSpec.EP_register (mk_register_request user_id))
     = Some (mk_register_request user_id)
-  /\ handler_check WS.EP_register (mk_register_request user_id) = None.
+  /\ handler_check WireSpec.EP_register (mk_register_request user_id) = None.
 Proof.
   intros W L. split; [|exact (handler_ok_register user_id L)].
   apply C16_tower_parses_client; [simpl; auto | unfold typedb; simpl; rewrite W; reflexivity].
@@ -43,10 +43,10 @@ Qed.
 
 Theorem C16_tower_parses_add_appointment locator blob to_self_delay c signature :
   wf_bytesb locator = true -> length locator = 16%nat -> wf_bytesb blob = true -> U32b to_self_delay = true ->
-  of_json_tower WS.EP_add_appointment
-      (to_json_client WS.EP_add_appointment (mk_add_appointment_request locator blob to_self_delay (c :: signature)))
+  of_json_tower WireSpec.EP_add_appointment
+      (to_json_client WireSpec.EP_add_appointment (mk_add_appointment_request locator blob to_self_delay (c :: signature)))
     = Some (mk_add_appointment_request locator blob to_self_delay (c :: signature))
-  /\ handler_check WS.EP_add_appointment (mk_add_appointment_request locator blob to_self_delay (c :: signature)) = None.
+  /\ handler_check WireSpec.EP_add_appointment (mk_add_appointment_request locator blob to_self_delay (c :: signature)) = None.
 Proof.
   intros W L Wb U. split; [|exact (handler_ok_add_appointment locator blob to_self_delay c signature L)].
   apply C16_tower_parses_client; [simpl; auto | unfold typedb; simpl; rewrite W, Wb, U; reflexivity].
@@ -54,19 +54,19 @@ Qed.
 
 Theorem C16_tower_parses_get_appointment locator c signature :
   wf_bytesb locator = true -> length locator = 16%nat ->
-  of_json_tower WS.EP_get_appointment (to_json_client WS.EP_get_appointment (mk_get_appointment_request locator (c :: signature)))
+  of_json_tower WireSpec.EP_get_appointment (to_json_client WireSpec.EP_get_appointment (mk_get_appointment_request locator (c :: signature)))
     = Some (mk_get_appointment_request locator (c :: signature))
-  /\ handler_check WS.EP_get_appointment (mk_get_appointment_request locator (c :: signature)) = None.
+  /\ handler_check WireSpec.EP_get_appointment (mk_get_appointment_request locator (c :: signature)) = None.
 Proof.
   intros W L. split; [|exact (handler_ok_get_appointment locator c signature L)].
   apply C16_tower_parses_client; [simpl; auto | unfold typedb; simpl; rewrite W; reflexivity].
 Qed.
 
 Theorem C16_tower_parses_get_subscription_info c signature :
-  of_json_tower WS.EP_get_subscription_info
-      (to_json_client WS.EP_get_subscription_info (mk_get_subscription_info_request (c :: signature)))
+  of_json_tower WireSpec.EP_get_subscription_info
+      (to_json_client WireSpec.EP_get_subscription_info (mk_get_subscription_info_request (c :: signature)))
     = Some (mk_get_subscription_info_request (c :: signature))
-  /\ handler_check WS.EP_get_subscription_info (mk_get_subscription_info_request (c :: signature)) = None.
+  /\ handler_check WireSpec.EP_get_subscription_info (mk_get_subscription_info_request (c :: signature)) = None.
 Proof.
   split; [|exact (handler_ok_get_subscription_info c signature)].
   apply C16_tower_parses_client; [simpl; auto | reflexivity].
@@ -76,7 +76,7 @@ Qed.
 
 (* Every success reply of every endpoint, whether the client decodes it as ApiResponse<T> or as T. *)
 Theorem C16_client_parses_tower (e : endpoint_spec) (r : mval) :
-  In e WS.ENDPOINTS -> typedb (ep_resp e) r = true ->
+  In e WireSpec.ENDPOINTS -> typedb (ep_resp e) r = true ->
   of_json_client e (to_json_tower e r) = CResponse r.
 Proof. exact (client_parses_tower_response e r). Qed.
 
@@ -84,7 +84,7 @@ Proof. exact (client_parses_tower_response e r). Qed.
    the untagged choice never takes one for the other (every reply type has a required key the
    error object lacks, and the success type is tried first). *)
 Theorem C16_client_parses_tower_error (e : endpoint_spec) (err : mval) :
-  In e WS.ENDPOINTS -> ep_client_wrapped e = true -> typedb WS.TowerApiError err = true ->
+  In e WireSpec.ENDPOINTS -> ep_client_wrapped e = true -> typedb WireSpec.TowerApiError err = true ->
   of_json_client e (to_json_err err) = CError err.
 Proof. exact (client_parses_tower_error e err). Qed.
 
@@ -92,20 +92,20 @@ Proof. exact (client_parses_tower_error e err). Qed.
    object of the tower becomes RequestError::DeserializeError — no wrong value, but the tower's
    error code and message are lost. *)
 Theorem C16_error_reply_undecoded_register_getsub (e : endpoint_spec) (err : mval) :
-  In e WS.ENDPOINTS -> ep_client_wrapped e = false -> typedb WS.TowerApiError err = true ->
+  In e WireSpec.ENDPOINTS -> ep_client_wrapped e = false -> typedb WireSpec.TowerApiError err = true ->
   of_json_client e (to_json_err err) = CDeserializeError.
 Proof. exact (client_loses_tower_error e err). Qed.
 
 (* ---------- serialise ; parse is the identity, for every message type ---------- *)
 Theorem C16_reser_identity (name : str) (m : msg) (v : mval) :
-  In (name, m) WS.MESSAGES \/ m = WS.TowerApiError \/ m = WS.ClientApiError ->
+  In (name, m) WireSpec.MESSAGES \/ m = WireSpec.TowerApiError \/ m = WireSpec.ClientApiError ->
   typedb m v = true -> of_json m (to_json m v) = Some v.
 Proof. exact (reser_identity name m v). Qed.
 
 (* ... and whatever parses (from ANY JSON value: unknown keys, either-case hex, array form, ...)
    is a value of the message type, on which serialise ; parse is again the identity. *)
 Theorem C16_reser_stable (name : str) (m : msg) (j : json) (v : mval) :
-  In (name, m) WS.MESSAGES \/ m = WS.TowerApiError \/ m = WS.ClientApiError ->
+  In (name, m) WireSpec.MESSAGES \/ m = WireSpec.TowerApiError \/ m = WireSpec.ClientApiError ->
   of_json m j = Some v -> typedb m v = true /\ of_json m (to_json m v) = Some v.
 Proof. exact (reser_stable_api name m j v). Qed.
 
@@ -144,11 +144,11 @@ Proof. intros W. split; [exact (behex_roundtrip b W) | reflexivity]. Qed.
    names; no other name is accepted; an i32 outside the enum is EMITTED as one of the three names
    (serde_status goes through AppointmentStatus::from, whose wildcard arm is NotFound). *)
 Theorem C16_status_names_bijective :
-  (forall n s, In (n, s) Doc_STATUS_NAMES -> status_emit WS.STATUS n = s /\ status_parse WS.STATUS s = Some n) /\
-  (forall s n, status_parse WS.STATUS s = Some n -> In (n, s) Doc_STATUS_NAMES) /\
+  (forall n s, In (n, s) Doc_STATUS_NAMES -> status_emit WireSpec.STATUS n = s /\ status_parse WireSpec.STATUS s = Some n) /\
+  (forall s n, status_parse WireSpec.STATUS s = Some n -> In (n, s) Doc_STATUS_NAMES) /\
   NoDup (map fst Doc_STATUS_NAMES) /\ NoDup (map snd Doc_STATUS_NAMES) /\
-  (forall n, In (status_emit WS.STATUS n) (map snd Doc_STATUS_NAMES)) /\
-  WS.STATUS_PROTO = st_variants WS.STATUS.
+  (forall n, In (status_emit WireSpec.STATUS n) (map snd Doc_STATUS_NAMES)) /\
+  WireSpec.STATUS_PROTO = st_variants WireSpec.STATUS.
 Proof.
   split; [exact status_doc_graph|]. split; [exact status_parse_only_doc|].
   split; [|split; [|split; [exact status_emit_total | reflexivity]]].
@@ -197,12 +197,12 @@ Proof. exact (layout_injective l vs ws). Qed.
    determines the locator *)
 Theorem C16_request_signing_messages :
   (forall l, get_appointment_msg_client l = get_appointment_msg_tower l) /\
-  WS.GET_SUBSCRIPTION_INFO_MSG_CLIENT = WS.GET_SUBSCRIPTION_INFO_MSG_TOWER /\
+  WireSpec.GET_SUBSCRIPTION_INFO_MSG_CLIENT = WireSpec.GET_SUBSCRIPTION_INFO_MSG_TOWER /\
   (forall a b, wf_bytesb a = true -> wf_bytesb b = true ->
                get_appointment_msg_tower a = get_appointment_msg_tower b -> a = b).
 Proof.
   split; [reflexivity|]. split; [reflexivity|].
-  intros a b. exact (sign_msg_get_appointment_inj WS.GET_APPOINTMENT_PREFIX_TOWER a b).
+  intros a b. exact (sign_msg_get_appointment_inj WireSpec.GET_APPOINTMENT_PREFIX_TOWER a b).
 Qed.
 
 (* ---------- the request-size limit ---------- *)
@@ -215,37 +215,37 @@ Qed.
 Theorem C16_within_limit l b t s :
   length l = 16%nat -> real_signature s -> U32b t = true ->
   add_appointment_len l b t s = (218 + ndigits t + 2 * length b)%nat /\
-  ((Z.of_nat (add_appointment_len l b t s) <= ep_cap WS.EP_add_appointment)%Z <-> (2 * length b + ndigits t <= 1830)%nat) /\
-  ((length b <= 910)%nat -> (Z.of_nat (add_appointment_len l b t s) <= ep_cap WS.EP_add_appointment)%Z) /\
-  ((915 <= length b)%nat -> (ep_cap WS.EP_add_appointment < Z.of_nat (add_appointment_len l b t s))%Z).
+  ((Z.of_nat (add_appointment_len l b t s) <= ep_cap WireSpec.EP_add_appointment)%Z <-> (2 * length b + ndigits t <= 1830)%nat) /\
+  ((length b <= 910)%nat -> (Z.of_nat (add_appointment_len l b t s) <= ep_cap WireSpec.EP_add_appointment)%Z) /\
+  ((915 <= length b)%nat -> (ep_cap WireSpec.EP_add_appointment < Z.of_nat (add_appointment_len l b t s))%Z).
 Proof. exact (within_limit l b t s). Qed.
 
 (* for any signature string: 82 + 2*|locator| + 2*|blob| + digits + |escaped signature| *)
 Theorem C16_add_appointment_body_len l b t s :
-  length (client_body WS.EP_add_appointment (mk_add_appointment_request l b t s))
+  length (client_body WireSpec.EP_add_appointment (mk_add_appointment_request l b t s))
   = (82 + 2 * length l + 2 * length b + ndigits t + esc_len s)%nat.
 Proof. exact (add_appointment_body_len l b t s). Qed.
 
 (* the other three requests have a fixed size below their caps *)
 Theorem C16_fixed_requests_fit u l s :
   length u = 33%nat -> length l = 16%nat -> real_signature s ->
-  length (client_body WS.EP_register (mk_register_request u)) = 80%nat /\
-  length (client_body WS.EP_get_appointment (mk_get_appointment_request l s)) = 165%nat /\
-  length (client_body WS.EP_get_subscription_info (mk_get_subscription_info_request s)) = 120%nat /\
-  (80 <= ep_cap WS.EP_register /\ 165 <= ep_cap WS.EP_get_appointment /\ 120 <= ep_cap WS.EP_get_subscription_info)%Z.
+  length (client_body WireSpec.EP_register (mk_register_request u)) = 80%nat /\
+  length (client_body WireSpec.EP_get_appointment (mk_get_appointment_request l s)) = 165%nat /\
+  length (client_body WireSpec.EP_get_subscription_info (mk_get_subscription_info_request s)) = 120%nat /\
+  (80 <= ep_cap WireSpec.EP_register /\ 165 <= ep_cap WireSpec.EP_get_appointment /\ 120 <= ep_cap WireSpec.EP_get_subscription_info)%Z.
 Proof. exact (fixed_requests_fit u l s). Qed.
 
 (* ---------- the format the code implements is the documented one ---------- *)
 Theorem C16_format_as_documented :
-  map doc_endpoint WS.ENDPOINTS = Doc_ENDPOINTS /\
-  WS.TowerApiError = Doc_ApiError /\ WS.ClientApiError = Doc_ApiError /\
-  WS.API_RESPONSE_ORDER = [AVResponse; AVError] /\
-  WS.APPOINTMENT_TO_VEC = Doc_APPOINTMENT_TO_VEC /\
-  WS.REGISTRATION_RECEIPT_TO_VEC = Doc_REGISTRATION_RECEIPT_TO_VEC /\
-  WS.APPOINTMENT_RECEIPT_TO_VEC = Doc_APPOINTMENT_RECEIPT_TO_VEC /\
-  (ep_cap WS.EP_register = Consts.REGISTER_BODY_LEN /\ ep_cap WS.EP_add_appointment = Consts.ADD_APPOINTMENT_BODY_LEN /\
-   ep_cap WS.EP_get_appointment = Consts.GET_APPOINTMENT_BODY_LEN /\
-   ep_cap WS.EP_get_subscription_info = Consts.GET_SUBSCRIPTION_INFO_BODY_LEN).
+  map doc_endpoint WireSpec.ENDPOINTS = Doc_ENDPOINTS /\
+  WireSpec.TowerApiError = Doc_ApiError /\ WireSpec.ClientApiError = Doc_ApiError /\
+  WireSpec.API_RESPONSE_ORDER = [AVResponse; AVError] /\
+  WireSpec.APPOINTMENT_TO_VEC = Doc_APPOINTMENT_TO_VEC /\
+  WireSpec.REGISTRATION_RECEIPT_TO_VEC = Doc_REGISTRATION_RECEIPT_TO_VEC /\
+  WireSpec.APPOINTMENT_RECEIPT_TO_VEC = Doc_APPOINTMENT_RECEIPT_TO_VEC /\
+  (ep_cap WireSpec.EP_register = Consts.REGISTER_BODY_LEN /\ ep_cap WireSpec.EP_add_appointment = Consts.ADD_APPOINTMENT_BODY_LEN /\
+   ep_cap WireSpec.EP_get_appointment = Consts.GET_APPOINTMENT_BODY_LEN /\
+   ep_cap WireSpec.EP_get_subscription_info = Consts.GET_SUBSCRIPTION_INFO_BODY_LEN).
 Proof. repeat split; reflexivity. Qed.
 
 (* ====================== the code as it is (known finding) ====================== *)
@@ -254,14 +254,14 @@ Proof. repeat split; reflexivity. Qed.
 Definition ex_err : mval := mk_api_error (s2b "Subscription maximum slots count reached") 65.
 
 Theorem C16_client_parses_tower_error_refuted :
-  exists e err, In e WS.ENDPOINTS /\ typedb WS.TowerApiError err = true /\
+  exists e err, In e WireSpec.ENDPOINTS /\ typedb WireSpec.TowerApiError err = true /\
                 of_json_client e (to_json_err err) <> CError err.
 Proof.
-  exists WS.EP_register, ex_err. split; [simpl; auto|]. split; [reflexivity|]. vm_compute. discriminate.
+  exists WireSpec.EP_register, ex_err. split; [simpl; auto|]. split; [reflexivity|]. vm_compute. discriminate.
 Qed.
 
 Example C16_unwrapped_endpoints_now :
-  map (fun e => (ep_path e, ep_client_wrapped e)) WS.ENDPOINTS =
+  map (fun e => (ep_path e, ep_client_wrapped e)) WireSpec.ENDPOINTS =
   [(s2b "/register", false); (s2b "/add_appointment", true); (s2b "/get_appointment", true);
    (s2b "/get_subscription_info", false)].
 Proof. reflexivity. Qed.
@@ -274,24 +274,24 @@ Definition ex_sig : str := s2b "d7x\z""".      (* contains a backslash and a dou
 
 (* the literal bytes the client posts *)
 Example C16_ex_register_text :
-  client_body WS.EP_register (mk_register_request ex_user_id)
+  client_body WireSpec.EP_register (mk_register_request ex_user_id)
   = s2b "{""user_id"":""020102030405060708090a0b0c0d0e0f101112131415161718191a1b1c1d1e1f20""}".
 Proof. vm_compute. reflexivity. Qed.
 
 Example C16_ex_add_appointment_text :
-  client_body WS.EP_add_appointment (mk_add_appointment_request ex_locator [0; 255; 16] 4294967295 ex_sig)
+  client_body WireSpec.EP_add_appointment (mk_add_appointment_request ex_locator [0; 255; 16] 4294967295 ex_sig)
   = s2b "{""appointment"":{""locator"":""f0f1f2f3f4f5f6f7f8f9fafbfcfdfeff"",""encrypted_blob"":""00ff10"",""to_self_delay"":4294967295},""signature"":""d7x\\z\""""}".
 Proof. vm_compute. reflexivity. Qed.
 
 Example C16_ex_request_roundtrips :
-  typedb (ep_req WS.EP_add_appointment) (mk_add_appointment_request ex_locator [] 0 ex_sig) = true /\
-  tower_http WS.EP_add_appointment 2048 (Some (to_json_client WS.EP_add_appointment (mk_add_appointment_request ex_locator [] 0 ex_sig)))
+  typedb (ep_req WireSpec.EP_add_appointment) (mk_add_appointment_request ex_locator [] 0 ex_sig) = true /\
+  tower_http WireSpec.EP_add_appointment 2048 (Some (to_json_client WireSpec.EP_add_appointment (mk_add_appointment_request ex_locator [] 0 ex_sig)))
   = TForward (mk_add_appointment_request ex_locator [] 0 ex_sig).
 Proof. split; vm_compute; reflexivity. Qed.
 
 (* txids travel byte-reversed: first byte 0x01 comes last, last byte 0xff first *)
 Example C16_ex_tracker_reply :
-  to_json_tower WS.EP_get_appointment (mk_get_appointment_response (data_tracker (mk_tracker ex_txid [7] [1; 2])) 2)
+  to_json_tower WireSpec.EP_get_appointment (mk_get_appointment_response (data_tracker (mk_tracker ex_txid [7] [1; 2])) 2)
   = JObj [(s2b "appointment",
            JObj [(s2b "dispute_txid", JStr (s2b "ff81807f7e7d7c7b7a797877767574737271706f6e6d6c6b6a6968676665" ++ s2b "6401"));
                  (s2b "penalty_txid", JStr (s2b "07")); (s2b "penalty_rawtx", JStr (s2b "0102"))]);
@@ -303,18 +303,18 @@ Example C16_ex_replies_decoded :
   let r2 := mk_get_appointment_response (data_appointment (mk_appointment ex_locator [1] 7)) 1 in
   let r3 := mk_get_appointment_response VNone 0 in
   let r4 := mk_get_appointment_response (VSome MVOneofNone) 0 in
-  map (fun r => typedb (ep_resp WS.EP_get_appointment) r) [r1; r2; r3; r4] = [true; true; true; true] /\
-  map (fun r => of_json_client WS.EP_get_appointment (to_json_tower WS.EP_get_appointment r)) [r1; r2; r3; r4]
+  map (fun r => typedb (ep_resp WireSpec.EP_get_appointment) r) [r1; r2; r3; r4] = [true; true; true; true] /\
+  map (fun r => of_json_client WireSpec.EP_get_appointment (to_json_tower WireSpec.EP_get_appointment r)) [r1; r2; r3; r4]
   = map CResponse [r1; r2; r3; r4] /\
-  of_json_client WS.EP_get_appointment (to_json_err ex_err) = CError ex_err /\
-  of_json_client WS.EP_add_appointment (to_json_err ex_err) = CError ex_err /\
-  of_json_client WS.EP_register (to_json_err ex_err) = CDeserializeError /\
-  of_json_client WS.EP_get_subscription_info (to_json_err ex_err) = CDeserializeError.
+  of_json_client WireSpec.EP_get_appointment (to_json_err ex_err) = CError ex_err /\
+  of_json_client WireSpec.EP_add_appointment (to_json_err ex_err) = CError ex_err /\
+  of_json_client WireSpec.EP_register (to_json_err ex_err) = CDeserializeError /\
+  of_json_client WireSpec.EP_get_subscription_info (to_json_err ex_err) = CDeserializeError.
 Proof. vm_compute. repeat split; reflexivity. Qed.
 
 (* what the derived parsers do with input the other side never emits *)
 Example C16_ex_parser_corner_cases :
-  let reg := ep_req WS.EP_register in
+  let reg := ep_req WireSpec.EP_register in
   let hexid := hex_encode ex_user_id in
   (* unknown keys are ignored; upper-case hex is accepted; the positional (array) form is accepted *)
   of_json reg (JObj [(s2b "x", JNull); (s2b "user_id", JStr (map to_upper hexid))]) = Some (mk_register_request ex_user_id) /\
@@ -326,19 +326,19 @@ Example C16_ex_parser_corner_cases :
   of_json reg (JObj []) = None /\
   of_json reg (JObj [(s2b "user_id", JNum 5)]) = None /\
   (* Option<Appointment>: absent and null are None *)
-  of_json (ep_req WS.EP_add_appointment) (JObj [(s2b "signature", JStr [65])]) = Some (MVStruct (vlist [VNone; VStr [65]])) /\
-  of_json (ep_req WS.EP_add_appointment) (JObj [(s2b "appointment", JNull); (s2b "signature", JStr [65])])
+  of_json (ep_req WireSpec.EP_add_appointment) (JObj [(s2b "signature", JStr [65])]) = Some (MVStruct (vlist [VNone; VStr [65]])) /\
+  of_json (ep_req WireSpec.EP_add_appointment) (JObj [(s2b "appointment", JNull); (s2b "signature", JStr [65])])
     = Some (MVStruct (vlist [VNone; VStr [65]])) /\
   (* u32 range *)
-  of_json WS.Appointment (JObj [(s2b "locator", JStr []); (s2b "encrypted_blob", JStr []); (s2b "to_self_delay", JNum 4294967296)]) = None /\
-  of_json WS.Appointment (JObj [(s2b "locator", JStr []); (s2b "encrypted_blob", JStr []); (s2b "to_self_delay", JNum (-1))]) = None.
+  of_json WireSpec.Appointment (JObj [(s2b "locator", JStr []); (s2b "encrypted_blob", JStr []); (s2b "to_self_delay", JNum 4294967296)]) = None /\
+  of_json WireSpec.Appointment (JObj [(s2b "locator", JStr []); (s2b "encrypted_blob", JStr []); (s2b "to_self_delay", JNum (-1))]) = None.
 Proof. vm_compute. repeat split; reflexivity. Qed.
 
 (* serde_status is not injective outside the enum: an i32 that is no discriminant is emitted as
    "not_found" and comes back as 0 — hence the typing hypothesis of the reply theorems *)
 Example C16_ex_status_outside_enum :
-  typedb (ep_resp WS.EP_get_appointment) (mk_get_appointment_response VNone 7) = false /\
-  of_json_client WS.EP_get_appointment (to_json_tower WS.EP_get_appointment (mk_get_appointment_response VNone 7))
+  typedb (ep_resp WireSpec.EP_get_appointment) (mk_get_appointment_response VNone 7) = false /\
+  of_json_client WireSpec.EP_get_appointment (to_json_tower WireSpec.EP_get_appointment (mk_get_appointment_response VNone 7))
   = CResponse (mk_get_appointment_response VNone 0).
 Proof. vm_compute. split; reflexivity. Qed.
 
@@ -357,15 +357,15 @@ Proof. vm_compute. repeat split; reflexivity. Qed.
 Example C16_ex_signing_domains_overlap :
   get_appointment_msg_tower ex_locator
   = appointment_to_vec (s2b "get appointment ") (s2b "f0f1f2f3f4f5f6f7f8f9fafbfcfd") 1717921382 /\
-  WS.GET_SUBSCRIPTION_INFO_MSG_TOWER = appointment_to_vec (s2b "get subscription") [32] 1768842863.
+  WireSpec.GET_SUBSCRIPTION_INFO_MSG_TOWER = appointment_to_vec (s2b "get subscription") [32] 1768842863.
 Proof. vm_compute. split; reflexivity. Qed.
 
 (* sizes at the boundary of the cap: a 914-byte blob fits with a 1-digit delay, not with a 3-digit one *)
 Example C16_ex_limit_boundary :
   let sg := repeat 121 104 in
   let big := repeat 0 914 in
-  (length (client_body WS.EP_add_appointment (mk_add_appointment_request ex_locator big 5 sg)) = 2047
-   /\ length (client_body WS.EP_add_appointment (mk_add_appointment_request ex_locator big 144 sg)) = 2049)%nat.
+  (length (client_body WireSpec.EP_add_appointment (mk_add_appointment_request ex_locator big 5 sg)) = 2047
+   /\ length (client_body WireSpec.EP_add_appointment (mk_add_appointment_request ex_locator big 144 sg)) = 2049)%nat.
 Proof. vm_compute. split; reflexivity. Qed.
 
 Print Assumptions C16_tower_parses_client.
